@@ -136,40 +136,66 @@ func TestC02(t *testing.T) {
 			}
 		}
 	}
-	// single-edit sweep: enumerated in thorough, strided sample in quick
+	// single-edit sweep over the whole corpus: a strided sample in quick (full registry); complete in
+	// thorough - every object x every leaf x every type-aware edit, linted with everything but the Fermat
+	// lint (60 % of the cost of a run, and a function of the key alone), which gets the key leaves of every
+	// object in a pass of its own.
 	all := append(append(append([]gen.Obj{}, co.Certs...), co.CRLs...), co.OCSPs...)
-	stride := stats.Scale(97, 1)
-	off := int(verifSeed() % uint64(stride))
-	k := 0
-	sweepDone := 0
-	for bi, o := range all {
-		root, err := dt.Parse(o.DER)
-		if err != nil {
-			continue
+	if stats.Thorough() {
+		var cover []sweepBase
+		for _, o := range all {
+			cover = append(cover, sweepBase{Obj: o, Exclude: []string{fermatLint}})
 		}
-		lvs := root.Leaves()
-		for leaf := 0; leaf < len(lvs); leaf++ {
-			for e, ne := 0, gen.LeafEditCount(lvs[leaf]); e < ne; e++ {
-				k++
-				if (k+off)%stride != 0 || !stats.Mine(k/stride) {
-					continue
+		for _, o := range co.Certs {
+			cover = append(cover, sweepBase{Obj: o, Lints: []string{fermatLint}, KeyLeavesOnly: true})
+		}
+		sweepBases(rec, cover, nil, true, "c02", func(c engine.Case, run *engine.Run) (string, string) {
+			sig, msg, _ := judgeC02Run(rec, c, run)
+			if msg == "" && run.Parsed {
+				for _, e := range run.Exp {
+					if e.Stage == model.StExecuted {
+						rec.NT(stats.Hash(c.DER))
+						break
+					}
 				}
-				der, ok := sweepMutant(o, leaf, e)
-				if !ok {
-					continue
-				}
-				sweepDone++
-				c := engine.Case{Kind: o.Kind, DER: der, Base: o.Name, Ops: []string{fmt.Sprintf("sweep leaf=%d edit=%d", leaf, e)}}
-				if sig, msg := judge(c); msg != "" {
-					if rec.Report("c02", sig, msg, c) {
-						t.Fatalf("c02 sweep %s (#%d) leaf=%d edit=%d: %s: %s", o.Name, bi, leaf, e, sig, msg)
+			}
+			return sig, msg
+		}, func(s string) { t.Fatalf("%s", s) })
+		rec.Exhaustive("single-edit-sweep", true)
+	} else {
+		stride := 97
+		off := int(verifSeed() % uint64(stride))
+		k := 0
+		sweepDone := 0
+		for bi, o := range all {
+			root, err := dt.Parse(o.DER)
+			if err != nil {
+				continue
+			}
+			lvs := root.Leaves()
+			for leaf := 0; leaf < len(lvs); leaf++ {
+				for e, ne := 0, gen.LeafEditCount(lvs[leaf]); e < ne; e++ {
+					k++
+					if (k+off)%stride != 0 || !stats.Mine(k/stride) {
+						continue
+					}
+					der, ok := sweepMutant(o, leaf, e)
+					if !ok {
+						continue
+					}
+					sweepDone++
+					c := engine.Case{Kind: o.Kind, DER: der, Base: o.Name, Ops: []string{fmt.Sprintf("sweep leaf=%d edit=%d", leaf, e)}}
+					if sig, msg := judge(c); msg != "" {
+						if rec.Report("c02", sig, msg, c) {
+							t.Fatalf("c02 sweep %s (#%d) leaf=%d edit=%d: %s: %s", o.Name, bi, leaf, e, sig, msg)
+						}
 					}
 				}
 			}
 		}
+		rec.ClassN("strided_sweep_cases", int64(sweepDone))
+		rec.Exhaustive("single-edit-sweep", false)
 	}
-	rec.ClassN("sweep_cases", int64(sweepDone))
-	rec.Exhaustive("single-edit-sweep", stride == 1)
 	// home sweep: every lint's own single-edit neighbourhood (enumerated in both tiers)
 	homeSweep(rec, stats.Scale(2, 4), true, "c02", func(c engine.Case, run *engine.Run) (string, string) {
 		sig, msg, _ := judgeC02Run(rec, c, run)
